@@ -163,7 +163,24 @@ func calleeErrImpliesFalse(callee *ssa.Function, idx, ei int) bool {
 
 // isGoTarget: fn is the function of some `go` statement in its parent; a named function qualifies when the module
 // only ever starts it with `go` (the body of a goroutine extracted into a function or method).
-func isGoTarget(fn *ssa.Function) bool {
+func isGoTarget(fn *ssa.Function) bool { return isGoTargetRec(fn, map[*ssa.Function]bool{}) }
+
+// memo of isGoTargetRec per analysed program (a function in progress counts as "no": cycles never make a go target)
+var goTargetMemo = map[*ssa.Function]bool{}
+var goTargetMemoProg *Program
+
+func isGoTargetRec(fn *ssa.Function, busy map[*ssa.Function]bool) (res bool) {
+	if goTargetMemoProg != curProgram {
+		goTargetMemo, goTargetMemoProg = map[*ssa.Function]bool{}, curProgram
+	}
+	if v, ok := goTargetMemo[fn]; ok {
+		return v
+	}
+	if busy[fn] {
+		return false
+	}
+	busy[fn] = true
+	defer func() { delete(busy, fn); goTargetMemo[fn] = res }()
 	par := fn.Parent()
 	if par == nil {
 		if curProgram == nil {
@@ -175,6 +192,8 @@ func isGoTarget(fn *ssa.Function) bool {
 				if ci, ok := in.(ssa.CallInstruction); ok && ci.Common().StaticCallee() == fn {
 					if _, isGo := in.(*ssa.Go); isGo {
 						nGo++
+					} else if _, isCall := in.(*ssa.Call); isCall && g != fn && isGoTargetRec(g, busy) {
+						nGo++ // called by the body of a goroutine: still only ever runs on a goroutine of its own
 					} else {
 						nOther++
 					}
@@ -297,6 +316,12 @@ func (p *Program) checkErrSite(s *errSite) errVerdict {
 				// kept in a field of a shared record (the receiver of a goroutine's method): some function of the
 				// module must hand that field back as its error
 				if st, isSt := e.Instr.(*ssa.Store); isSt && len(e.Args) == 2 && derivedFromE(e.Args[1]) {
+					// an out-parameter: `*err = e` with err a *error parameter hands the error to the caller, like a result
+					if pa, isPa := st.Addr.(*ssa.Parameter); isPa {
+						if pt, isPtr := pa.Type().Underlying().(*types.Pointer); isPtr && pt.Elem().String() == "error" {
+							handedOff = true
+						}
+					}
 					if fa, isFA := st.Addr.(*ssa.FieldAddr); isFA {
 						if _, isParam := fa.X.(*ssa.Parameter); isParam {
 							if fieldReturnedAsError(fa) {
